@@ -78,6 +78,8 @@ SigmaFull == <<
   <<20, 0>>, <<20, 1, 97>>, <<20, 1, 98>>, <<20, 2, 97, 97>>, <<20, 1, 0>>, <<20, 1, 128>>,
   <<21, 1, 0, 97>>, <<20, 255>>, <<20, 5, 97>>, <<21, 128, 0>> \o Rep(120, 128), <<22, 1, 0, 0, 0, 97>>,
   <<24, 0>>, <<24, 1, 170>>, <<25, 1, 0, 170>>, <<24, 255>>, <<26, 0, 0, 0, 128>>,
+  \* a NEGATIVE one-byte length (0x80 = -128, 0xC8 = -56) followed by as many bytes as its unsigned reading asks for
+  <<20, 128>> \o Rep(97, 128), <<24, 200>> \o Rep(7, 200),
   <<0>>, <<23>>, <<27>>, <<71>>, <<255>> >>
 \* further boundary encodings for the thorough tier
 SigmaWide == SigmaFull \o <<
